@@ -343,9 +343,7 @@ impl Lower for ss::VPatId {
                 let Ctor(name, tail) = ctor;
                 let tail_vpat = tail.lower(lo, ());
                 let data_id = lo.statics.data_pat_hints[self];
-                let idx = lo.statics.datas[&data_id]
-                    .iter()
-                    .position(|(tag_branch, _ty)| tag_branch == &name)
+                let idx = tag_of(lo.statics.datas[&data_id].iter(), &name)
                     .expect("Constructor tag not found");
                 let ctor_idx = CtorIdx { idx, name };
                 Ctor(ctor_idx, tail_vpat).into()
@@ -422,9 +420,7 @@ impl Lower for ss::ValueId {
             }
             | ss::Value::Ctor(Ctor(name, body)) => {
                 let data_id = lo.statics.data_hints[self];
-                let idx = lo.statics.datas[&data_id]
-                    .iter()
-                    .position(|(tag_branch, _ty)| tag_branch == &name)
+                let idx = tag_of(lo.statics.datas[&data_id].iter(), &name)
                     .expect("Constructor tag not found");
                 let body = body.lower(lo, ());
                 body.map(|body| Ctor(CtorIdx { idx, name }, body).build(lo, site))
@@ -566,9 +562,7 @@ impl Lower for ss::CompuId {
                     .map(|arm| {
                         let CoMatcher { dtor: name, tail } = arm;
                         let codata_id = lo.statics.codata_hints[self];
-                        let idx = lo.statics.codatas[&codata_id]
-                            .iter()
-                            .position(|(tag_branch, _ty)| tag_branch == &name)
+                        let idx = tag_of(lo.statics.codatas[&codata_id].iter(), &name)
                             .expect("Destructor tag not found");
                         let dtor_idx = DtorIdx { idx, name };
                         let branch_stack = Bullet.build(lo, site);
@@ -580,9 +574,7 @@ impl Lower for ss::CompuId {
             }
             | Compu::Dtor(Dtor(body, name)) => {
                 let codata_id = lo.statics.codata_hints[&body];
-                let idx = lo.statics.codatas[&codata_id]
-                    .iter()
-                    .position(|(tag_branch, _ty)| tag_branch == &name)
+                let idx = tag_of(lo.statics.codatas[&codata_id].iter(), &name)
                     .expect("Destructor tag not found");
                 let dtor_idx = DtorIdx { idx, name };
                 let stack = Cons(dtor_idx, stack).build(lo, site);
@@ -590,6 +582,23 @@ impl Lower for ss::CompuId {
             }
         }
     }
+}
+
+/// The tag of a constructor or destructor is the rank of its name among the arms of its type:
+/// structurally equal types may list their arms in any order and must agree on every tag.
+fn tag_of<'a, N: Ord + 'a, T: 'a>(
+    arms: impl Iterator<Item = &'a (N, T)>, name: &N,
+) -> Option<usize> {
+    let mut found = false;
+    let mut rank = 0;
+    for (other, _) in arms {
+        if other == name {
+            found = true;
+        } else if other < name {
+            rank += 1;
+        }
+    }
+    found.then_some(rank)
 }
 
 #[cfg(test)]
